@@ -362,6 +362,8 @@ def check(case, ctx):
                                               'fp_member', 'long_double_member', 'union', 'nested_aggregate'})
         for eng in ('-eg', '-ei'):
             crc, cout, cerr = run([C2M, '-w', 'main.c', '-L' + d, '-llib', eng], d)
+            if crc == -9:
+                return o.disc('timeout of c2m (machine load): inconclusive')
             if 'AddressSanitizer' in cerr:
                 m = re.search(r'ERROR: AddressSanitizer: (\S+)', cerr)
                 fr = re.search(r'#\d+ 0x[0-9a-f]+ in (\w+) /repo', cerr)
